@@ -12,11 +12,13 @@ RULE = ('case = (many-valued table: column types from {IntervalPS, IntervalNumpy
         'Tables for which BottomOK fails (AttributePS empty-set convention, finding D17) are kept in their own streams. '
         'non-trivial = at least 2 rows, not all rows equal; distinct = distinct (kind, types, cells, extra arguments)')
 EXHAUSTIVE = {
-    'quick': 'all tables with <=3 rows x <=2 columns over {IntervalPS on the grid {0,1,2}: 3 points + 3 proper intervals '
+    'quick': 'object-wise stream first: all 4-row x 2-column tables over {IntervalPS on {0,1}: 2 points + 1 interval, '
+             'SetPS over subsets of {a}, AttributePS} and 300 random 5-7-row tables of shuffled duplicated/nested rows, '
+             'each mined with n_projections_to_binarize in {0,1000}; then all tables with <=3 rows x <=2 columns over {IntervalPS on the grid {0,1,2}: 3 points + 3 proper intervals '
              '(3x2 tables: 2 points + 2 intervals), SetPS over subsets of {a,b}, AttributePS}; per table: all non-empty '
              'ordered object lists (closure laws), all descriptions on the grid in every dict order incl. partial dicts x '
              '(None + all ordered base lists) for tables with <=2 rows or 1 column, binarize(), both mining paths',
-    'thorough': 'quick scope with the full interval domain for 3x2 tables, IntervalNumpyPS columns, plus 4-row tables '
+    'thorough': '(a boosted quick run adds only the IntervalNumpyPS, 4x1 and 3x the random streams) quick scope with the full interval domain for 3x2 tables, IntervalNumpyPS columns, plus 4-row tables '
                 'with 1 column (SetPS over {a,b,c}) and 4x2 tables over a reduced cell domain'}
 EXPLANATION = ('Lean proves, for every many-valued context with BottomOK, that all three paths of close_by_one (object-wise on '
                'descriptions, binarising, binarising-transposed) return exactly the closed object sets, each once, with '
@@ -207,6 +209,31 @@ def random_table(rng, nmax, mmax, grid, syms, np_ok=True):
     return types, rows
 
 
+def pooled_table(rng):
+    """5..7 rows drawn (with repetition, shuffled) from a small pool of nested / overlapping row values in 1..2
+    columns: duplicated and nested rows that are NOT adjacent, the situation in which an extent jumps ahead"""
+    m = rng.randint(1, 2)
+    types = [rng.choice('IISSA') for _ in range(m)]
+    if rng.random() < 0.5 and 'I' not in types:
+        types[rng.randrange(m)] = 'I'       # keep most of these tables BottomOK
+    npool = rng.randint(2, 4)
+    pool = []
+    for _ in range(npool):
+        r = []
+        for t in types:
+            if t == 'I':
+                a, b = sorted((rng.randint(0, 2), rng.randint(0, 2)))
+                r.append([a, b])
+            elif t == 'S':
+                r.append(sorted(rng.sample(range(2), rng.randint(0, 2))))
+            else:
+                r.append(rng.randint(0, 1))
+        pool.append(r)
+    n = rng.randint(5, 7)
+    rows = [[list(v) if isinstance(v, list) else v for v in rng.choice(pool)] for _ in range(n)]
+    return types, rows
+
+
 def load_corpus():
     import json
     import os
@@ -222,11 +249,22 @@ def load_corpus():
 def gen(tier, seed, boost=False):
     rng = random.Random(seed * 1000003 + 1414)
     _notbottom_seen[0] = 0
-    thorough = tier == 'thorough' or boost
+    thorough = tier == 'thorough'          # the full thorough scope
+    extra = thorough or boost              # a boosted quick run adds the cheap extra streams only (stays ~minutes)
     yield from load_corpus()
     # the two witnesses of the known finding and a mixed table, always first
     yield from table_cases(['A'], [[0], [1]], 'exhaustive')
     yield from table_cases(['A'], [[0]], 'exhaustive')
+    # ---- object-wise path on 4..7 objects (n_projections_to_binarize=0 judged against the closed sets) ----
+    # early in the stream: CbO's canonicity/extent computation only has room to go wrong when a closure jumps
+    # over an object that joins later, which needs >= 4 objects in an unsorted row order
+    ow = {'I': [[0, 0], [1, 1], [0, 1]], 'S': [[], [0]], 'A': ATTR}
+    for types in itertools.product('ISA', repeat=2):
+        for rows in tables(4, types, [ow[t] for t in types]):
+            yield from table_cases(types, rows, 'objectwise-4rows', kinds=('lat',))
+    for _ in range(300 if tier == 'quick' else 3000):
+        types, rows = pooled_table(rng)
+        yield from table_cases(types, rows, 'objectwise-random', kinds=('cl', 'lat'), rng=rng)
     # ---- exhaustive small scope ------------------------------------------------------------------------
     base_types = 'ISA'
     for n in (1, 2, 3):
@@ -238,7 +276,7 @@ def gen(tier, seed, boost=False):
                 for rows in tables(n, types, doms):
                     yield from table_cases(types, rows, 'exhaustive',
                                            kinds=('cl', 'conj', 'bin', 'lat') if conj else ('cl', 'bin', 'lat'))
-    if thorough:
+    if extra:
         # IntervalNumpyPS columns: all 1-column tables and 2-column tables with <= 2 rows
         for n in (1, 2, 3):
             for m in (1, 2):
@@ -254,6 +292,7 @@ def gen(tier, seed, boost=False):
             for rows in tables(4, [t], [domain(t, IV_FULL, SET_ABC)]):
                 yield from table_cases([t], rows, 'exhaustive-4rows',
                                        descs=all_descs([t], syms=3) if t == 'S' else None)
+    if thorough:
         # 4 rows, 2 columns over a reduced cell domain
         red = {'I': [[0, 0], [1, 1], [0, 1]], 'S': [[], [0], [0, 1]], 'A': ATTR}
         for types in itertools.product('ISA', repeat=2):
@@ -351,7 +390,42 @@ def _closed_mv(K, n, kmin=0):
     return sorted([list(x) for x in out], key=lambda e: (len(e), e))
 
 
+CASE_TIME_LIMIT_S = 10
+_TIMED_OUT = set()      # cases (of this process) on which the implementation ran into the time guard
+
+
+def _case_id(c):
+    import json
+    return json.dumps([c['kind'], c['types'], c['rows']])
+
+
+class NonTermination(BaseException):     # not an Exception: the per-call handlers of _impl must not swallow it
+    pass
+
+
+def _alarm(signum, frame):
+    raise NonTermination()
+
+
 def impl(c):
+    """run the real code under a per-case time guard: a hang / blow-up is a property failure, never a silent stall"""
+    import signal
+    try:
+        old = signal.signal(signal.SIGALRM, _alarm)
+    except ValueError:          # not in the main thread of the process: no guard available
+        return _impl(c)
+    signal.setitimer(signal.ITIMER_REAL, CASE_TIME_LIMIT_S)
+    try:
+        return _impl(c)
+    except NonTermination:
+        _TIMED_OUT.add(_case_id(c))
+        return {'err': 'NonTermination'}
+    finally:
+        signal.setitimer(signal.ITIMER_REAL, 0)
+        signal.signal(signal.SIGALRM, old)
+
+
+def _impl(c):
     K = make_mv(c)
     types, n = c['types'], len(c['rows'])
     kind = c['kind']
@@ -449,6 +523,9 @@ def _canon_concepts(cs):
 def judge(c, io, rep):
     kind = c['kind']
     n = len(c['rows'])
+    if io.get('err') == 'NonTermination':
+        return dict(ok=False, kind='property',
+                    detail=f'{kind}: the implementation did not finish within {CASE_TIME_LIMIT_S}s on this table')
     if kind == 'cl':
         r = rep[0]
         if not r['wf']:
@@ -600,6 +677,19 @@ def signature(c, io, rep, v):
 
 
 def shrink(c):
+    """smaller cases.  Two guards: (1) a case that BottomOK holds for is never shrunk into a table without BottomOK
+    (it would slide into the known finding D17 and the genuine failure would be filed under it); (2) a case on which
+    the implementation hit the time guard is reported as it is (every shrinking step would cost the full time limit)."""
+    if _case_id(c) in _TIMED_OUT:
+        return
+    keep_bottom = bottom_ok_py(c['types'], c['rows'])
+    for d in _shrink(c):
+        if keep_bottom and not bottom_ok_py(d['types'], d['rows']):
+            continue
+        yield d
+
+
+def _shrink(c):
     rows, types = c['rows'], c['types']
     n, m = len(rows), len(types)
 
